@@ -15,6 +15,7 @@ use crate::parsing::{datetime, formula};
 use crate::types::{BaseUnit, Dimensionality, GenericDateTime, Number, Numeric};
 use chrono::FixedOffset;
 use std::collections::BTreeMap;
+use std::convert::TryFrom;
 use std::rc::Rc;
 
 /// Evaluates an expression to compute its value, *excluding* `->`
@@ -997,7 +998,16 @@ pub(crate) fn eval_query(ctx: &Context, expr: &Query) -> Result<QueryReply, Quer
                     )))
                 }
             };
-            let top = top.with_timezone(&FixedOffset::east_opt(off as i32).unwrap());
+            let offset = i32::try_from(off)
+                .ok()
+                .and_then(FixedOffset::east_opt)
+                .ok_or_else(|| {
+                    QueryError::generic(format!(
+                        "Timezone offset {} is out of range, must be less than 24 hours",
+                        Conversion::Offset(off)
+                    ))
+                })?;
+            let top = top.with_timezone(&offset);
             Ok(QueryReply::Date(DateReply::new(ctx, top)))
         }
         Query::Convert(ref top, Conversion::Timezone(tz), None, Digits::Default) => {
